@@ -203,22 +203,23 @@ Proof.
 Qed.
 
 (* ---------- the simulation ---------- *)
-Definition mstate_ok (st : cstate) (env : genv) (vs : vmstate) : Prop :=
-  ostack vs = [] /\ locals vs = [] /\ globals_hold env (csym st) (globals vs) /\ slots_exist (csym st) (globals vs).
+Definition mstate_ok (G : nat) (st : cstate) (env : genv) (vs : vmstate) : Prop :=
+  ostack vs = [] /\ locals vs = [] /\ globals_hold env (csym st) (globals vs) /\ slots_exist (csym st) (globals vs) /\
+  List.length (globals vs) = G.
 
 Definition SIMs (fuel : nat) (s : stmt) (st st' : cstate) (seg : list N) : Prop :=
-  forall env env', exec_s fuel s env = Some env' -> forall p vs pre post,
+  forall G env env', exec_s fuel s env = Some env' -> forall p vs pre post,
     pcode p = pre ++ seg ++ post -> List.length pre = List.length (ccode st) -> consts_of p st' ->
-    ip vs = N.of_nat (List.length pre) -> mstate_ok st env vs ->
+    ip vs = N.of_nat (List.length pre) -> mstate_ok G st env vs ->
     sym_static (csym st) -> slots_distinct (csym st) -> sdepth s <= StackSize ->
-    exists vs', reaches p vs vs' /\ ip vs' = ip vs + N.of_nat (List.length seg) /\ mstate_ok st env' vs'.
+    exists vs', reaches p vs vs' /\ ip vs' = ip vs + N.of_nat (List.length seg) /\ mstate_ok G st env' vs'.
 
 Definition SIMl (fuel : nat) (l : slist) (st st' : cstate) (seg : list N) : Prop :=
-  forall env env', exec_l fuel l env = Some env' -> forall p vs pre post,
+  forall G env env', exec_l fuel l env = Some env' -> forall p vs pre post,
     pcode p = pre ++ seg ++ post -> List.length pre = List.length (ccode st) -> consts_of p st' ->
-    ip vs = N.of_nat (List.length pre) -> mstate_ok st env vs ->
+    ip vs = N.of_nat (List.length pre) -> mstate_ok G st env vs ->
     sym_static (csym st) -> slots_distinct (csym st) -> ldepth l <= StackSize ->
-    exists vs', reaches p vs vs' /\ ip vs' = ip vs + N.of_nat (List.length seg) /\ mstate_ok st env' vs'.
+    exists vs', reaches p vs vs' /\ ip vs' = ip vs + N.of_nat (List.length seg) /\ mstate_ok G st env' vs'.
 
 Lemma store_global' env n v y sym (g : list value) :
   slots_distinct sym -> st_resolve n sym = Some y -> (N.to_nat (sidx y) < List.length g)%nat ->
@@ -233,24 +234,24 @@ Proof.
     pose proof (HD n m y ym HR HRm H) as ->. rewrite str_eqb_refl in E. discriminate.
 Qed.
 
-Lemma mstate_same st st2 env vs : same_resolve (csym st2) (csym st) -> mstate_ok st env vs -> mstate_ok st2 env vs.
+Lemma mstate_same G st st2 env vs : same_resolve (csym st2) (csym st) -> mstate_ok G st env vs -> mstate_ok G st2 env vs.
 Proof.
-  intros HS (A & B & C & D). repeat split; auto; [eapply globals_hold_same; eauto|eapply slots_exist_same; eauto].
+  intros HS (A & B & C & D & E). repeat split; auto; [eapply globals_hold_same; eauto|eapply slots_exist_same; eauto].
 Qed.
-Lemma mstate_same_back st st2 env vs : same_resolve (csym st2) (csym st) -> mstate_ok st2 env vs -> mstate_ok st env vs.
+Lemma mstate_same_back G st st2 env vs : same_resolve (csym st2) (csym st) -> mstate_ok G st2 env vs -> mstate_ok G st env vs.
 Proof.
-  intros HS H. apply (mstate_same st2 st env vs); [intro n; rewrite HS; reflexivity|exact H].
+  intros HS H. apply (mstate_same G st2 st env vs); [intro n; rewrite HS; reflexivity|exact H].
 Qed.
 
 (* an expression of the fragment evaluated by the machine, from an empty stack *)
-Lemma expr_runs e st st1 seg_e env v p vs pre post :
+Lemma expr_runs G e st st1 seg_e env v p vs pre post :
   efrag e = true -> compile_expr true e st = COk st1 -> ccode st1 = ccode st ++ seg_e ->
   eval_expr env e = Some v -> sym_static (csym st) ->
   pcode p = pre ++ seg_e ++ post -> consts_of p st1 -> ip vs = N.of_nat (List.length pre) ->
-  mstate_ok st env vs -> edepth e <= StackSize ->
+  mstate_ok G st env vs -> edepth e <= StackSize ->
   reaches p vs {| ip := ip vs + N.of_nat (List.length seg_e); ostack := [v]; locals := locals vs; globals := globals vs |}.
 Proof.
-  intros HF HC HSeg HE HS HP (more & HK) HI (M1 & M2 & M3 & M4) HD.
+  intros HF HC HSeg HE HS HP (more & HK) HI (M1 & M2 & M3 & M4 & M5) HD.
   destruct (compile_expr_correct e HF env st st1 v HC HE HS) as (_ & seg & newc & B & _ & D).
   assert (seg = seg_e) by (rewrite HSeg in B; apply app_inv_head in B; congruence). subst seg.
   destruct (D p vs more pre post HP HK HI M3) as (n & R).
@@ -263,18 +264,18 @@ Theorem sim_all : forall fuel,
   (forall l st st' seg, LAYL l st st' seg -> SIMl fuel l st st' seg).
 Proof.
   induction fuel as [|f [IHs IHl]].
-  - split; intros; intros env env' HX; simpl in HX; discriminate.
+  - split; intros; intros G env env' HX; simpl in HX; discriminate.
   - split.
-    + intros s st st' seg HL. inversion HL; subst; intros env env' HX p vs pre post HP HLen HK HI HM HSS HSD HDp.
+    + intros s st st' seg HL. inversion HL; subst; intros G env env' HX p vs pre post HP HLen HK HI HM HSS HSD HDp.
       * (* assign *)
         cbn [exec_s] in HX. destruct (eval_expr env e) as [v|] eqn:HE; [|discriminate]. inversion HX; subst env'.
         destruct (efrag_consts e st st1 H H0) as [(nc & K1) S1].
         assert (HK1 : consts_of p st1) by (destruct HK as (more & HK); exists more; rewrite HK, H5; reflexivity).
         cbn [sdepth] in HDp.
-        pose proof (expr_runs e st st1 seg_e env v p vs pre (sg ++ post) H H0 H1 HE HSS
+        pose proof (expr_runs G e st st1 seg_e env v p vs pre (sg ++ post) H H0 H1 HE HSS
                       ltac:(rewrite HP, <- !app_assoc; reflexivity) HK1 HI HM HDp) as R1.
         set (vs1 := {| ip := ip vs + N.of_nat (List.length seg_e); ostack := [v]; locals := locals vs; globals := globals vs |}) in *.
-        destruct HM as (M1 & M2 & M3 & M4). destruct H4 as (hi & lo & -> & E4).
+        destruct HM as (M1 & M2 & M3 & M4 & M5). destruct H4 as (hi & lo & -> & E4).
         pose proof (M4 n y H2) as HL4.
         eexists. split; [|split].
         -- eapply reaches_trans; [exact R1|]. apply reaches_step.
@@ -285,6 +286,7 @@ Proof.
         -- unfold mstate_ok. simpl. rewrite E4. repeat split; auto.
            ++ apply store_global'; auto.
            ++ intros m ym HRm. rewrite set_nth_length. apply (M4 m ym HRm).
+           ++ rewrite set_nth_length. exact M5.
       * (* empty *)
         cbn [exec_s] in HX. inversion HX; subst. exists vs. split; [apply reaches_refl|]. split; [simpl; lia|exact HM].
       * (* while *)
@@ -298,17 +300,17 @@ Proof.
         destruct (eval_expr env c) as [[| [] | | | | |]|] eqn:HE; try discriminate.
         -- (* true: one more iteration *)
            destruct (exec_l f b env) as [env1|] eqn:HXb; [|discriminate].
-           pose proof (expr_runs c st st1 seg_c env (VBool true) p vs pre (jf ++ seg_b ++ jb ++ post) H H0 H1 HE HSS
+           pose proof (expr_runs G c st st1 seg_c env (VBool true) p vs pre (jf ++ seg_b ++ jb ++ post) H H0 H1 HE HSS
                          ltac:(rewrite HP, <- !app_assoc; reflexivity) HK1 HI HM ltac:(lia)) as R1.
            set (vs1 := {| ip := ip vs + N.of_nat (List.length seg_c); ostack := [VBool true]; locals := locals vs; globals := globals vs |}) in *.
            pose proof (step_jof p vs1 (pre ++ seg_c) (seg_b ++ jb ++ post) jf _ true [] H6
                          ltac:(rewrite HP, <- !app_assoc; reflexivity)
                          ltac:(unfold vs1; simpl; rewrite HI, app_length; lia) eq_refl) as R2.
            set (vs2 := {| ip := ip vs1 + 3; ostack := []; locals := locals vs1; globals := globals vs1 |}) in *.
-           destruct HM as (M1 & M2 & M3 & M4).
-           assert (HM2 : mstate_ok stx env vs2).
-           { apply (mstate_same st stx); [exact H3|]. unfold vs2, vs1; simpl. repeat split; auto. }
-           destruct (IHl b stx stb seg_b H5 env env1 HXb p vs2 (pre ++ seg_c ++ jf) (jb ++ post)) as (vs3 & R3 & I3 & HM3).
+           destruct HM as (M1 & M2 & M3 & M4 & M5).
+           assert (HM2 : mstate_ok G stx env vs2).
+           { apply (mstate_same G st stx); [exact H3|]. unfold vs2, vs1; simpl. repeat split; auto. }
+           destruct (IHl b stx stb seg_b H5 G env env1 HXb p vs2 (pre ++ seg_c ++ jf) (jb ++ post)) as (vs3 & R3 & I3 & HM3).
            { rewrite HP, <- !app_assoc. reflexivity. }
            { rewrite !app_length, Ljf. apply Nat2N.inj. rewrite H4, H1, app_length, !Nat2N.inj_add, HLen. simpl. lia. }
            { exact HKb. }
@@ -321,9 +323,9 @@ Proof.
                          ltac:(rewrite HP, <- !app_assoc; reflexivity)
                          ltac:(rewrite I3; unfold vs2, vs1; simpl; rewrite HI, !app_length, Ljf; lia)) as R4.
            set (vs4 := {| ip := N.of_nat (List.length (ccode st)); ostack := ostack vs3; locals := locals vs3; globals := globals vs3 |}) in *.
-           assert (HM4 : mstate_ok st env1 vs4).
-           { apply (mstate_same_back st stx); [exact H3|]. destruct HM3 as (A3 & B3 & C3 & D3). unfold vs4; simpl. repeat split; auto. }
-           destruct (IHs _ _ _ _ HL env1 env' HX p vs4 pre post HP HLen HK) as (vs5 & R5 & I5 & HM5); auto.
+           assert (HM4 : mstate_ok G st env1 vs4).
+           { apply (mstate_same_back G st stx); [exact H3|]. destruct HM3 as (A3 & B3 & C3 & D3 & E3). unfold vs4; simpl. repeat split; auto. }
+           destruct (IHs _ _ _ _ HL G env1 env' HX p vs4 pre post HP HLen HK) as (vs5 & R5 & I5 & HM5); auto.
            { unfold vs4; simpl. rewrite HLen. reflexivity. }
            exists vs5. split; [|split; [|exact HM5]].
            ++ eapply reaches_trans; [exact R1|]. eapply reaches_trans; [apply reaches_step; exact R2|].
@@ -331,14 +333,14 @@ Proof.
            ++ rewrite I5. unfold vs4; simpl. rewrite HI, HLen. reflexivity.
         -- (* false: leave the loop *)
            inversion HX; subst env'.
-           pose proof (expr_runs c st st1 seg_c env (VBool false) p vs pre (jf ++ seg_b ++ jb ++ post) H H0 H1 HE HSS
+           pose proof (expr_runs G c st st1 seg_c env (VBool false) p vs pre (jf ++ seg_b ++ jb ++ post) H H0 H1 HE HSS
                          ltac:(rewrite HP, <- !app_assoc; reflexivity) HK1 HI HM ltac:(lia)) as R1.
            set (vs1 := {| ip := ip vs + N.of_nat (List.length seg_c); ostack := [VBool false]; locals := locals vs; globals := globals vs |}) in *.
            pose proof (step_jof p vs1 (pre ++ seg_c) (seg_b ++ jb ++ post) jf _ false [] H6
                          ltac:(rewrite HP, <- !app_assoc; reflexivity)
                          ltac:(unfold vs1; simpl; rewrite HI, app_length; lia) eq_refl) as R2.
            eexists. split; [eapply reaches_trans; [exact R1|apply reaches_step; exact R2]|].
-           destruct HM as (M1 & M2 & M3 & M4). split; [simpl; rewrite HI, HLen; reflexivity|].
+           destruct HM as (M1 & M2 & M3 & M4 & M5). split; [simpl; rewrite HI, HLen; reflexivity|].
            unfold mstate_ok, vs1; simpl. repeat split; auto.
       * (* if without else *)
         cbn [exec_s] in HX. cbn [sdepth] in HDp.
@@ -349,17 +351,17 @@ Proof.
         { apply (consts_of_prefix p st1 stb nb); [rewrite Kb, H2; reflexivity|exact HKb]. }
         pose proof (jbytes_len _ _ _ H6) as Ljf. pose proof (jbytes_len _ _ _ H7) as Lje.
         destruct (eval_expr env c) as [[| [] | | | | |]|] eqn:HE; try discriminate.
-        -- pose proof (expr_runs c st st1 seg_c env (VBool true) p vs pre (jf ++ seg_b ++ je ++ post) H H0 H1 HE HSS
+        -- pose proof (expr_runs G c st st1 seg_c env (VBool true) p vs pre (jf ++ seg_b ++ je ++ post) H H0 H1 HE HSS
                          ltac:(rewrite HP, <- !app_assoc; reflexivity) HK1 HI HM ltac:(lia)) as R1.
            set (vs1 := {| ip := ip vs + N.of_nat (List.length seg_c); ostack := [VBool true]; locals := locals vs; globals := globals vs |}) in *.
            pose proof (step_jof p vs1 (pre ++ seg_c) (seg_b ++ je ++ post) jf _ true [] H6
                          ltac:(rewrite HP, <- !app_assoc; reflexivity)
                          ltac:(unfold vs1; simpl; rewrite HI, app_length; lia) eq_refl) as R2.
            set (vs2 := {| ip := ip vs1 + 3; ostack := []; locals := locals vs1; globals := globals vs1 |}) in *.
-           destruct HM as (M1 & M2 & M3 & M4).
-           assert (HM2 : mstate_ok stx env vs2).
-           { apply (mstate_same st stx); [exact H3|]. unfold vs2, vs1; simpl. repeat split; auto. }
-           destruct (IHl b stx stb seg_b H5 env env' HX p vs2 (pre ++ seg_c ++ jf) (je ++ post)) as (vs3 & R3 & I3 & HM3).
+           destruct HM as (M1 & M2 & M3 & M4 & M5).
+           assert (HM2 : mstate_ok G stx env vs2).
+           { apply (mstate_same G st stx); [exact H3|]. unfold vs2, vs1; simpl. repeat split; auto. }
+           destruct (IHl b stx stb seg_b H5 G env env' HX p vs2 (pre ++ seg_c ++ jf) (je ++ post)) as (vs3 & R3 & I3 & HM3).
            { rewrite HP, <- !app_assoc. reflexivity. }
            { rewrite !app_length, Ljf. apply Nat2N.inj. rewrite H4, H1, app_length, !Nat2N.inj_add, HLen. simpl. lia. }
            { exact HKb. }
@@ -375,16 +377,16 @@ Proof.
            ++ eapply reaches_trans; [exact R1|]. eapply reaches_trans; [apply reaches_step; exact R2|].
               eapply reaches_trans; [exact R3|apply reaches_step; exact R4].
            ++ simpl. rewrite HI, HLen. reflexivity.
-           ++ apply (mstate_same_back st stx); [exact H3|]. destruct HM3 as (A3 & B3 & C3 & D3). simpl. repeat split; auto.
+           ++ apply (mstate_same_back G st stx); [exact H3|]. destruct HM3 as (A3 & B3 & C3 & D3 & E3). simpl. repeat split; auto.
         -- inversion HX; subst env'.
-           pose proof (expr_runs c st st1 seg_c env (VBool false) p vs pre (jf ++ seg_b ++ je ++ post) H H0 H1 HE HSS
+           pose proof (expr_runs G c st st1 seg_c env (VBool false) p vs pre (jf ++ seg_b ++ je ++ post) H H0 H1 HE HSS
                          ltac:(rewrite HP, <- !app_assoc; reflexivity) HK1 HI HM ltac:(lia)) as R1.
            set (vs1 := {| ip := ip vs + N.of_nat (List.length seg_c); ostack := [VBool false]; locals := locals vs; globals := globals vs |}) in *.
            pose proof (step_jof p vs1 (pre ++ seg_c) (seg_b ++ je ++ post) jf _ false [] H6
                          ltac:(rewrite HP, <- !app_assoc; reflexivity)
                          ltac:(unfold vs1; simpl; rewrite HI, app_length; lia) eq_refl) as R2.
            eexists. split; [eapply reaches_trans; [exact R1|apply reaches_step; exact R2]|].
-           destruct HM as (M1 & M2 & M3 & M4). split; [simpl; rewrite HI, HLen; reflexivity|].
+           destruct HM as (M1 & M2 & M3 & M4 & M5). split; [simpl; rewrite HI, HLen; reflexivity|].
            unfold mstate_ok, vs1; simpl. repeat split; auto.
       * (* if with else *)
         cbn [exec_s] in HX. cbn [sdepth] in HDp.
@@ -398,17 +400,17 @@ Proof.
         pose proof (jbytes_len _ _ _ H10) as Ljf. pose proof (jbytes_len _ _ _ H11) as Lje.
         pose proof (layl_len _ _ _ _ H5) as LLb.
         destruct (eval_expr env c) as [[| [] | | | | |]|] eqn:HE; try discriminate.
-        -- pose proof (expr_runs c st st1 seg_c env (VBool true) p vs pre (jf ++ seg_b ++ je ++ seg_e ++ post) H H0 H1 HE HSS
+        -- pose proof (expr_runs G c st st1 seg_c env (VBool true) p vs pre (jf ++ seg_b ++ je ++ seg_e ++ post) H H0 H1 HE HSS
                          ltac:(rewrite HP, <- !app_assoc; reflexivity) HK1 HI HM ltac:(lia)) as R1.
            set (vs1 := {| ip := ip vs + N.of_nat (List.length seg_c); ostack := [VBool true]; locals := locals vs; globals := globals vs |}) in *.
            pose proof (step_jof p vs1 (pre ++ seg_c) (seg_b ++ je ++ seg_e ++ post) jf _ true [] H10
                          ltac:(rewrite HP, <- !app_assoc; reflexivity)
                          ltac:(unfold vs1; simpl; rewrite HI, app_length; lia) eq_refl) as R2.
            set (vs2 := {| ip := ip vs1 + 3; ostack := []; locals := locals vs1; globals := globals vs1 |}) in *.
-           destruct HM as (M1 & M2 & M3 & M4).
-           assert (HM2 : mstate_ok stx env vs2).
-           { apply (mstate_same st stx); [exact H3|]. unfold vs2, vs1; simpl. repeat split; auto. }
-           destruct (IHl b stx stb seg_b H5 env env' HX p vs2 (pre ++ seg_c ++ jf) (je ++ seg_e ++ post)) as (vs3 & R3 & I3 & HM3).
+           destruct HM as (M1 & M2 & M3 & M4 & M5).
+           assert (HM2 : mstate_ok G stx env vs2).
+           { apply (mstate_same G st stx); [exact H3|]. unfold vs2, vs1; simpl. repeat split; auto. }
+           destruct (IHl b stx stb seg_b H5 G env env' HX p vs2 (pre ++ seg_c ++ jf) (je ++ seg_e ++ post)) as (vs3 & R3 & I3 & HM3).
            { rewrite HP, <- !app_assoc. reflexivity. }
            { rewrite !app_length, Ljf. apply Nat2N.inj. rewrite H4, H1, app_length, !Nat2N.inj_add, HLen. simpl. lia. }
            { exact HKb. }
@@ -424,8 +426,8 @@ Proof.
            ++ eapply reaches_trans; [exact R1|]. eapply reaches_trans; [apply reaches_step; exact R2|].
               eapply reaches_trans; [exact R3|apply reaches_step; exact R4].
            ++ simpl. rewrite HI, HLen. reflexivity.
-           ++ apply (mstate_same_back st stx); [exact H3|]. destruct HM3 as (A3 & B3 & C3 & D3). simpl. repeat split; auto.
-        -- pose proof (expr_runs c st st1 seg_c env (VBool false) p vs pre (jf ++ seg_b ++ je ++ seg_e ++ post) H H0 H1 HE HSS
+           ++ apply (mstate_same_back G st stx); [exact H3|]. destruct HM3 as (A3 & B3 & C3 & D3 & E3). simpl. repeat split; auto.
+        -- pose proof (expr_runs G c st st1 seg_c env (VBool false) p vs pre (jf ++ seg_b ++ je ++ seg_e ++ post) H H0 H1 HE HSS
                          ltac:(rewrite HP, <- !app_assoc; reflexivity) HK1 HI HM ltac:(lia)) as R1.
            set (vs1 := {| ip := ip vs + N.of_nat (List.length seg_c); ostack := [VBool false]; locals := locals vs; globals := globals vs |}) in *.
            pose proof (step_jof p vs1 (pre ++ seg_c) (seg_b ++ je ++ seg_e ++ post) jf _ false [] H10
@@ -433,10 +435,10 @@ Proof.
                          ltac:(unfold vs1; simpl; rewrite HI, app_length; lia) eq_refl) as R2.
            set (vs2 := {| ip := N.of_nat (List.length (ccode st)) + N.of_nat (List.length (seg_c ++ jf ++ seg_b ++ je));
                           ostack := []; locals := locals vs1; globals := globals vs1 |}) in *.
-           destruct HM as (M1 & M2 & M3 & M4).
-           assert (HM2 : mstate_ok sty env vs2).
-           { apply (mstate_same st sty); [exact H7|]. unfold vs2, vs1; simpl. repeat split; auto. }
-           destruct (IHl eb sty ste seg_e H9 env env' HX p vs2 (pre ++ seg_c ++ jf ++ seg_b ++ je) post) as (vs3 & R3 & I3 & HM3).
+           destruct HM as (M1 & M2 & M3 & M4 & M5).
+           assert (HM2 : mstate_ok G sty env vs2).
+           { apply (mstate_same G st sty); [exact H7|]. unfold vs2, vs1; simpl. repeat split; auto. }
+           destruct (IHl eb sty ste seg_e H9 G env env' HX p vs2 (pre ++ seg_c ++ jf ++ seg_b ++ je) post) as (vs3 & R3 & I3 & HM3).
            { rewrite HP, <- !app_assoc. reflexivity. }
            { assert (X : N.of_nat (List.length (ccode st1)) = N.of_nat (List.length (ccode st)) + N.of_nat (List.length seg_c)) by (rewrite H1, app_length; lia).
              apply Nat2N.inj. rewrite !app_length, Ljf, Lje. lia. }
@@ -449,25 +451,257 @@ Proof.
            exists vs3. split; [|split].
            ++ eapply reaches_trans; [exact R1|]. eapply reaches_trans; [apply reaches_step; exact R2|exact R3].
            ++ rewrite I3. unfold vs2; simpl. rewrite HI, HLen, !app_length, !Nat2N.inj_add. lia.
-           ++ apply (mstate_same_back st sty); [exact H7|exact HM3].
-    + intros l st st' seg HL. inversion HL; subst; intros env env' HX p vs pre post HP HLen HK HI HM HSS HSD HDp.
+           ++ apply (mstate_same_back G st sty); [exact H7|exact HM3].
+    + intros l st st' seg HL. inversion HL; subst; intros G env env' HX p vs pre post HP HLen HK HI HM HSS HSD HDp.
       * cbn [exec_l] in HX. inversion HX; subst. exists vs. split; [apply reaches_refl|]. split; [simpl; lia|exact HM].
       * cbn [exec_l] in HX. cbn [ldepth] in HDp.
         destruct (exec_s f s env) as [env1|] eqn:HX1; [|discriminate].
         destruct (lay_frame) as [LFs LFl]. destruct (LFs _ _ _ _ H) as [(n1 & K1) S1]. destruct (LFl _ _ _ _ H1) as [(n2 & K2) S2].
         assert (HK1 : consts_of p st1) by (apply (consts_of_prefix p st1 st' n2 K2 HK)).
-        destruct (IHs s st st1 seg1 H env env1 HX1 p vs pre (seg2 ++ post)) as (vs1 & R1 & I1 & HM1); auto.
+        destruct (IHs s st st1 seg1 H G env env1 HX1 p vs pre (seg2 ++ post)) as (vs1 & R1 & I1 & HM1); auto.
         { rewrite HP, <- !app_assoc. reflexivity. }
         { lia. }
-        destruct (IHl t st1 st' seg2 H1 env1 env' HX p vs1 (pre ++ seg1) post) as (vs2 & R2 & I2 & HM2).
+        destruct (IHl t st1 st' seg2 H1 G env1 env' HX p vs1 (pre ++ seg1) post) as (vs2 & R2 & I2 & HM2).
         { rewrite HP, <- !app_assoc. reflexivity. }
         { rewrite app_length. apply Nat2N.inj. rewrite H0, Nat2N.inj_add, HLen. reflexivity. }
         { exact HK. }
         { rewrite I1, HI, app_length. lia. }
-        { apply (mstate_same st st1); [exact S1|exact HM1]. }
+        { apply (mstate_same G st st1); [exact S1|exact HM1]. }
         { apply (sym_static_same (csym st)); assumption. }
         { apply (slots_distinct_same (csym st)); assumption. }
         { lia. }
         exists vs2. split; [eapply reaches_trans; eauto|]. split; [rewrite I2, I1, app_length; lia|].
-        apply (mstate_same_back st st1); [exact S1|exact HM2].
+        apply (mstate_same_back G st st1); [exact S1|exact HM2].
+Qed.
+
+(* ====================================================================== *)
+(* Part 2: the compiler lays its code out that way                         *)
+(* ====================================================================== *)
+Fixpoint wfrag_stmt (s : stmt) : bool :=
+  match s with
+  | SAssign (EVar _) e => efrag e
+  | SEmpty => true
+  | SIf c b CNil els => efrag c && wfrag_slist b && match els with NoElse => true | Else eb => wfrag_slist eb end
+  | SWhile c b => efrag c && wfrag_slist b
+  | _ => false
+  end
+with wfrag_slist (l : slist) : bool :=
+  match l with SNil => true | SCons s t => wfrag_stmt s && wfrag_slist t end.
+
+Lemma patch_bytes pre a h l rest T s s' :
+  ccode s = pre ++ a :: h :: l :: rest ->
+  patch true (Z.of_nat (List.length pre)) T s = COk s' ->
+  (0 <= T < 65536)%Z /\
+  exists hi lo, hi * 256 + lo = Z.to_N T /\
+    s' = {| ccode := pre ++ a :: hi :: lo :: rest; cconsts := cconsts s; csym := csym s; cbreaks := cbreaks s |}.
+Proof.
+  intros HC HP. unfold patch, change_operand in HP. destruct (fits16 T) eqn:HF; [|discriminate].
+  unfold fits16 in HF. split; [lia|]. destruct (put16_read T ltac:(lia)) as (hi & lo & EP & E).
+  exists hi, lo. split; [exact E|]. inversion HP; subst s'. f_equal.
+  unfold change_operand_before_fix. rewrite EP, HC.
+  replace (N.to_nat (Z.to_N (Z.of_nat (List.length pre)))) with (List.length pre) by lia. apply set_nth_patch.
+Qed.
+
+Lemma emit_hole_bytes o st st' : is_jump o = true -> emit true o [JumpPlaceholderZ] st = COk st' ->
+  exists h l, st' = {| ccode := ccode st ++ [N_of_opc o; h; l]; cconsts := cconsts st; csym := csym st; cbreaks := cbreaks st |}.
+Proof.
+  intros HJ H. assert (HO : has_operand o = true) by (destruct o; try discriminate HJ; reflexivity).
+  apply emit_ok in H. destruct H as (ins & HM & ->).
+  destruct (make_arg_bytes o JumpPlaceholderZ HO ltac:(vm_compute; split; congruence)) as (h & l & HM' & _).
+  rewrite HM in HM'. inversion HM'; subst. eauto.
+Qed.
+
+Lemma emit_jump_bytes T st st' : emit true Jump [T] st = COk st' ->
+  exists jb, jbytes Jump (Z.to_N T) jb /\
+    st' = {| ccode := ccode st ++ jb; cconsts := cconsts st; csym := csym st; cbreaks := cbreaks st |}.
+Proof.
+  intro H. apply emit_ok in H. destruct H as (ins & HM & ->).
+  pose proof (make_some_range Jump T ins eq_refl HM) as HR.
+  destruct (make_arg_bytes Jump T eq_refl HR) as (hi & lo & HM' & E). rewrite HM in HM'. inversion HM'; subst.
+  exists [N_of_opc Jump; hi; lo]. split; [exists hi, lo; auto|reflexivity].
+Qed.
+
+Definition LAYOK (s : stmt) (st st' : cstate) : Prop :=
+  exists seg, LAY s st st' seg /\ ccode st' = ccode st ++ seg /\ cbreaks st' = cbreaks st /\ csym st' = csym st.
+Definition LAYLOK (l : slist) (st st' : cstate) : Prop :=
+  exists seg, LAYL l st st' seg /\ ccode st' = ccode st ++ seg /\ cbreaks st' = cbreaks st /\ csym st' = csym st.
+
+Definition slist_lay (l : slist) : Prop :=
+  forall st st', body_of true l st = COk st' -> gsym (csym st) -> has_gb (csym st) -> LAYLOK l st st'.
+
+Lemma same_resolve_push s : same_resolve (st_push s) s.
+Proof. intro n. apply resolve_push. Qed.
+
+Lemma lay_assign_ok n e st st' : efrag e = true ->
+  compile_stmt true (SAssign (EVar n) e) st = COk st' -> has_gb (csym st) -> LAYOK (SAssign (EVar n) e) st st'.
+Proof.
+  intros HF HC (gc0 & HG0). cbn [compile_stmt] in HC.
+  destruct (compile_expr true e st) as [st1|] eqn:E1; [|discriminate]. cbn [bind] in HC.
+  destruct (efrag_sl e HF st st1 E1) as (S1 & ops & newc & C & K & _).
+  destruct (st_resolve n (csym st1)) as [y|] eqn:ER; [|discriminate]. rewrite S1 in ER.
+  destruct (HG0 n y ER) as [SG _].
+  destruct (emit_setglobal_run y st1 st' HC SG) as (E1' & E2' & hi & lo & E3' & E4').
+  exists (encode ops ++ [N_of_opc SetGlobal; hi; lo]). split; [|split; [|split]].
+  - eapply lay_assign; eauto; [exists hi, lo; auto|congruence].
+  - rewrite E3', C, app_assoc. reflexivity.
+  - unfold emit_set_var in HC. rewrite SG in HC. apply emit_breaks in HC. rewrite HC. apply (efrag_breaks e HF _ _ E1).
+  - congruence.
+Qed.
+
+(* a block body compiled between enterScope and leaveScope *)
+Lemma lay_block b st st' : slist_lay b -> compile_block true b st = COk st' -> gsym (csym st) -> has_gb (csym st) ->
+  exists stx stb seg, LAYL b stx stb seg /\
+    cconsts stx = cconsts st /\ same_resolve (csym stx) (csym st) /\ ccode stx = ccode st /\
+    ccode st' = ccode st ++ seg /\ ccode stb = ccode st' /\ cconsts st' = cconsts stb /\
+    cbreaks st' = cbreaks st /\ csym st' = csym st.
+Proof.
+  intros HB HC HG HGB. rewrite compile_block_body in HC.
+  destruct (body_of true b (with_sym (st_push (csym st)) st)) as [st3|] eqn:E; [|discriminate]. cbn [bind] in HC.
+  inversion HC; subst st'; clear HC.
+  destruct (HB _ _ E) as (seg & L & C & B & S); cbn [with_sym csym]; [apply gsym_push; exact HG|apply has_gb_push; exact HGB|].
+  cbn [with_sym ccode cconsts csym cbreaks] in *.
+  exists (with_sym (st_push (csym st)) st), st3, seg. cbn [with_sym ccode cconsts csym cbreaks].
+  split; [exact L|]. split; [reflexivity|]. split; [apply same_resolve_push|]. split; [reflexivity|].
+  split; [exact C|]. split; [reflexivity|]. split; [reflexivity|]. split; [exact B|].
+  rewrite S. apply pop_push_id. exact HG.
+Qed.
+
+Lemma patch_all_nil T s : patch_all true [] T s = COk s.
+Proof. reflexivity. Qed.
+
+Lemma lay_while_ok c b st st' : efrag c = true -> slist_lay b ->
+  compile_stmt true (SWhile c b) st = COk st' -> gsym (csym st) -> has_gb (csym st) -> LAYOK (SWhile c b) st st'.
+Proof.
+  intros HF HB HC HG HGB. cbn [compile_stmt] in HC.
+  destruct (compile_expr true c st) as [st1|] eqn:E1; [|discriminate]. cbn [bind] in HC.
+  destruct (emit true JumpOnFalse [JumpPlaceholderZ] st1) as [st2|] eqn:E2; [|discriminate]. cbn [bind] in HC.
+  destruct (compile_block true b (with_breaks [] st2)) as [stb|] eqn:E3; [|discriminate]. cbn [bind] in HC.
+  destruct (emit true Jump [pos_of st] stb) as [st3|] eqn:E4; [|discriminate]. cbn [bind] in HC.
+  destruct (patch true (pos_of st1) (pos_of st3) st3) as [st4|] eqn:E5; [|discriminate]. cbn [bind] in HC.
+  destruct (patch_all true (cbreaks st3) (pos_of st3) st4) as [st5|] eqn:E6; [|discriminate]. cbn [bind] in HC.
+  inversion HC; subst st'; clear HC.
+  destruct (efrag_sl c HF st st1 E1) as (S1 & ops & newc & C & K & _).
+  pose proof (efrag_breaks c HF _ _ E1) as B1.
+  apply emit_hole_bytes in E2; [|reflexivity]. destruct E2 as (h0 & l0 & ->).
+  destruct (lay_block b _ stb HB E3) as (stx & stbb & seg_b & L & Kx & Sx & Cx & Cb & Cbb & Kb & Bb & Sb);
+    cbn [with_breaks csym]; [rewrite S1; exact HG|rewrite S1; exact HGB|].
+  cbn [with_breaks ccode cconsts csym cbreaks] in Kx, Sx, Cx, Cb, Bb, Sb.
+  apply emit_jump_bytes in E4. destruct E4 as (jb & HJB & ->).
+  cbn [cbreaks] in E6. rewrite Bb in E6. rewrite patch_all_nil in E6. inversion E6; subst st5; clear E6.
+  assert (C3 : ccode stb ++ jb = ccode st1 ++ N_of_opc JumpOnFalse :: h0 :: l0 :: (seg_b ++ jb)).
+  { rewrite Cb, <- !app_assoc. reflexivity. }
+  unfold pos_of at 1 in E5.
+  match type of E5 with patch _ _ ?T0 ?s0 = _ =>
+    destruct (patch_bytes (ccode st1) _ h0 l0 (seg_b ++ jb) T0 s0 st4 C3 E5) as (HT & hi & lo & EH & ->) end.
+  cbn [with_breaks ccode cconsts csym cbreaks].
+  set (jf := [N_of_opc JumpOnFalse; hi; lo]).
+  exists (encode ops ++ jf ++ seg_b ++ jb).
+  assert (LEN : N.of_nat (List.length (ccode st)) + N.of_nat (List.length (encode ops ++ jf ++ seg_b ++ jb)) = hi * 256 + lo).
+  { rewrite EH. unfold pos_of. cbn [ccode]. rewrite C3, C. pose proof (jbytes_len _ _ _ HJB).
+    rewrite ?app_length; simpl List.length; rewrite ?app_length; simpl List.length; lia. }
+  split; [|split; [|split]].
+  - assert (F4 : cconsts stx = cconsts st1) by (rewrite Kx; reflexivity).
+    assert (F5 : same_resolve (csym stx) (csym st)) by (intro n; rewrite Sx, S1; reflexivity).
+    assert (F6 : N.of_nat (List.length (ccode stx)) = N.of_nat (List.length (ccode st1)) + 3) by (rewrite Cx, app_length; simpl; lia).
+    assert (F8 : jbytes JumpOnFalse (N.of_nat (List.length (ccode st)) + N.of_nat (List.length (encode ops ++ jf ++ seg_b ++ jb))) jf)
+      by (exists hi, lo; split; [reflexivity|rewrite LEN; reflexivity]).
+    assert (F9 : jbytes Jump (N.of_nat (List.length (ccode st))) jb) by (rewrite pos_pcof, N2Z.id in HJB; exact HJB).
+    refine (lay_while c b st st1 stx stbb _ (encode ops) seg_b jf jb HF E1 C F4 F5 F6 L F8 F9 _ _).
+    + cbn [cconsts]. exact Kb.
+    + cbn [csym]. rewrite Sb. exact S1.
+  - rewrite C. unfold jf. rewrite <- !app_assoc. reflexivity.
+  - exact B1.
+  - rewrite Sb. exact S1.
+Qed.
+
+Lemma lay_if_ok c b els st st' : efrag c = true -> slist_lay b ->
+  (match els with NoElse => True | Else eb => slist_lay eb end) ->
+  compile_stmt true (SIf c b CNil els) st = COk st' -> gsym (csym st) -> has_gb (csym st) ->
+  LAYOK (SIf c b CNil els) st st'.
+Proof.
+  intros HF HB HE HC HG HGB. cbn [compile_stmt compile_elifs] in HC. rewrite compile_cond_body in HC.
+  destruct (compile_expr true c st) as [st1|] eqn:E1; [|discriminate]. cbn [bind] in HC.
+  destruct (emit true JumpOnFalse [JumpPlaceholderZ] st1) as [st2|] eqn:E2; [|discriminate]. cbn [bind] in HC.
+  destruct (body_of true b (with_sym (st_push (csym st2)) st2)) as [st3|] eqn:E3; [|discriminate]. cbn [bind] in HC.
+  destruct (emit true Jump [JumpPlaceholderZ] (with_sym (st_pop (csym st3)) st3)) as [st4|] eqn:E4; [|discriminate]. cbn [bind] in HC.
+  destruct (patch true (pos_of st1) (pos_of st4) st4) as [st5|] eqn:E5; [|discriminate]. cbn [bind] in HC.
+  destruct (efrag_sl c HF st st1 E1) as (S1 & ops & newc & C & K & _).
+  pose proof (efrag_breaks c HF _ _ E1) as B1.
+  apply emit_hole_bytes in E2; [|reflexivity]. destruct E2 as (h0 & l0 & ->). cbn [csym] in E3.
+  destruct (HB _ _ E3) as (seg_b & L & Cb & Bb & Sb); cbn [with_sym csym];
+    [apply gsym_push; rewrite S1; exact HG|apply has_gb_push; rewrite S1; exact HGB|].
+  cbn [with_sym ccode cconsts csym cbreaks] in Cb, Bb, Sb.
+  apply emit_hole_bytes in E4; [|reflexivity]. destruct E4 as (h1 & l1 & ->). cbn [with_sym ccode cconsts csym cbreaks] in *.
+  assert (C4 : ccode st3 ++ [N_of_opc Jump; h1; l1] = ccode st1 ++ N_of_opc JumpOnFalse :: h0 :: l0 :: (seg_b ++ [N_of_opc Jump; h1; l1])).
+  { rewrite Cb, <- !app_assoc. reflexivity. }
+  unfold pos_of at 1 in E5.
+  match type of E5 with patch _ _ ?T0 ?s0 = _ =>
+    destruct (patch_bytes (ccode st1) _ h0 l0 (seg_b ++ [N_of_opc Jump; h1; l1]) T0 s0 st5 C4 E5) as (HT & hi & lo & EH & ->) end.
+  cbn [ccode cconsts csym cbreaks] in HC.
+  set (jf := [N_of_opc JumpOnFalse; hi; lo]) in *.
+  set (stc := {| ccode := ccode st1 ++ N_of_opc JumpOnFalse :: hi :: lo :: seg_b ++ [N_of_opc Jump; h1; l1];
+                 cconsts := cconsts st3; csym := st_pop (csym st3); cbreaks := cbreaks st3 |}) in *.
+  assert (Sc : csym stc = csym st) by (unfold stc; cbn [csym]; rewrite Sb, S1; apply pop_push_id; exact HG).
+  assert (EJ : (pos_of stc - 3)%Z = Z.of_nat (List.length (ccode st1 ++ jf ++ seg_b))).
+  { unfold pos_of, stc, jf. cbn [ccode]. rewrite ?app_length; simpl List.length; rewrite ?app_length; simpl List.length; lia. }
+  assert (JFT : N.of_nat (List.length (ccode st)) + N.of_nat (List.length (encode ops ++ jf ++ seg_b ++ [N_of_opc Jump; h1; l1])) = hi * 256 + lo).
+  { rewrite EH. unfold pos_of. cbn [ccode]. rewrite C4, C. rewrite ?app_length; simpl List.length; rewrite ?app_length; simpl List.length; lia. }
+  destruct els as [|eb].
+  - (* no else *)
+    cbn [bind] in HC. unfold patch_all in HC. cbn [fold_left bind] in HC. rewrite EJ in HC.
+    assert (CC : ccode stc = (ccode st1 ++ jf ++ seg_b) ++ N_of_opc Jump :: h1 :: l1 :: []).
+    { unfold stc, jf. cbn [ccode]. rewrite <- !app_assoc. reflexivity. }
+    match type of HC with patch _ _ ?T0 ?s0 = _ =>
+      destruct (patch_bytes _ _ h1 l1 [] T0 s0 st' CC HC) as (HT2 & hj & lj & EH2 & ->) end.
+    set (je := [N_of_opc Jump; hj; lj]).
+    exists (encode ops ++ jf ++ seg_b ++ je).
+    assert (LEN : N.of_nat (List.length (ccode st)) + N.of_nat (List.length (encode ops ++ jf ++ seg_b ++ je)) = hj * 256 + lj).
+    { rewrite EH2. unfold pos_of. rewrite CC, C. rewrite ?app_length; simpl List.length; rewrite ?app_length; simpl List.length; lia. }
+    split; [|split; [|split]].
+    + set (stx := {| ccode := ccode st1 ++ [N_of_opc JumpOnFalse; h0; l0]; cconsts := cconsts st1; csym := st_push (csym st1); cbreaks := cbreaks st1 |}) in *.
+      assert (F4 : cconsts stx = cconsts st1) by reflexivity.
+      assert (F5 : same_resolve (csym stx) (csym st)) by (intro n; unfold stx; cbn [csym]; rewrite resolve_push, S1; reflexivity).
+      assert (F6 : N.of_nat (List.length (ccode stx)) = N.of_nat (List.length (ccode st1)) + 3) by (unfold stx; cbn [ccode]; rewrite app_length; simpl; lia).
+      assert (F8 : jbytes JumpOnFalse (N.of_nat (List.length (ccode st)) + N.of_nat (List.length (encode ops ++ jf ++ seg_b ++ je))) jf).
+      { exists hi, lo. split; [reflexivity|]. rewrite <- JFT. unfold je. rewrite !app_length. reflexivity. }
+      assert (F9 : jbytes Jump (N.of_nat (List.length (ccode st)) + N.of_nat (List.length (encode ops ++ jf ++ seg_b ++ je))) je)
+        by (exists hj, lj; split; [reflexivity|rewrite LEN; reflexivity]).
+      refine (lay_if_noelse c b st st1 stx st3 _ (encode ops) seg_b jf je HF E1 C F4 F5 F6 L F8 F9 _ _).
+      * reflexivity.
+      * cbn [csym]. exact Sc.
+    + cbn [ccode]. rewrite C. unfold jf, je. rewrite <- !app_assoc. reflexivity.
+    + cbn [cbreaks]. unfold stc. cbn [cbreaks]. rewrite Bb. exact B1.
+    + cbn [csym]. exact Sc.
+  - (* else *)
+    destruct (compile_block true eb stc) as [ste|] eqn:E6; [|discriminate]. cbn [bind] in HC.
+    destruct (lay_block eb stc ste HE E6) as (sty & stee & seg_e & Le & Ky & Sy & Cy & Ce & Cee & Ke & Be & Se);
+      [rewrite Sc; exact HG|rewrite Sc; exact HGB|].
+    unfold patch_all in HC. cbn [fold_left bind] in HC. rewrite EJ in HC.
+    assert (CC : ccode ste = (ccode st1 ++ jf ++ seg_b) ++ N_of_opc Jump :: h1 :: l1 :: seg_e).
+    { rewrite Ce. unfold stc, jf. cbn [ccode]. rewrite <- ?app_assoc. cbn [app]. rewrite <- ?app_assoc. cbn [app]. reflexivity. }
+    match type of HC with patch _ _ ?T0 ?s0 = _ =>
+      destruct (patch_bytes _ _ h1 l1 seg_e T0 s0 st' CC HC) as (HT2 & hj & lj & EH2 & ->) end.
+    set (je := [N_of_opc Jump; hj; lj]).
+    exists (encode ops ++ jf ++ seg_b ++ je ++ seg_e).
+    assert (LEN : N.of_nat (List.length (ccode st)) + N.of_nat (List.length (encode ops ++ jf ++ seg_b ++ je ++ seg_e)) = hj * 256 + lj).
+    { rewrite EH2. unfold pos_of. rewrite CC, C. rewrite ?app_length; simpl List.length; rewrite ?app_length; simpl List.length; lia. }
+    split; [|split; [|split]].
+    + set (stx := {| ccode := ccode st1 ++ [N_of_opc JumpOnFalse; h0; l0]; cconsts := cconsts st1; csym := st_push (csym st1); cbreaks := cbreaks st1 |}) in *.
+      assert (F4 : cconsts stx = cconsts st1) by reflexivity.
+      assert (F5 : same_resolve (csym stx) (csym st)) by (intro n; unfold stx; cbn [csym]; rewrite resolve_push, S1; reflexivity).
+      assert (F6 : N.of_nat (List.length (ccode stx)) = N.of_nat (List.length (ccode st1)) + 3) by (unfold stx; cbn [ccode]; rewrite app_length; simpl; lia).
+      assert (G1 : cconsts sty = cconsts st3) by (rewrite Ky; unfold stc; reflexivity).
+      assert (G2 : same_resolve (csym sty) (csym st)) by (intro n; rewrite Sy, Sc; reflexivity).
+      assert (G3 : N.of_nat (List.length (ccode sty)) = N.of_nat (List.length (ccode st3)) + 3).
+      { rewrite Cy. unfold stc. cbn [ccode]. rewrite Cb. unfold stx. cbn [ccode]. rewrite ?app_length; simpl List.length; rewrite ?app_length; simpl List.length; lia. }
+      assert (F8 : jbytes JumpOnFalse (N.of_nat (List.length (ccode st)) + N.of_nat (List.length (encode ops ++ jf ++ seg_b ++ je))) jf).
+      { exists hi, lo. split; [reflexivity|]. rewrite <- JFT. unfold je. rewrite !app_length. reflexivity. }
+      assert (F9 : jbytes Jump (N.of_nat (List.length (ccode st)) + N.of_nat (List.length (encode ops ++ jf ++ seg_b ++ je ++ seg_e))) je)
+        by (exists hj, lj; split; [reflexivity|rewrite LEN; reflexivity]).
+      refine (lay_if_else c b eb st st1 stx st3 sty stee _ (encode ops) seg_b seg_e jf je HF E1 C F4 F5 F6 L G1 G2 G3 Le F8 F9 _ _).
+      * cbn [cconsts]. exact Ke.
+      * cbn [csym]. rewrite Se. exact Sc.
+    + cbn [ccode]. rewrite C. unfold jf, je. rewrite <- !app_assoc. reflexivity.
+    + cbn [cbreaks]. rewrite Be. unfold stc. cbn [cbreaks]. rewrite Bb. exact B1.
+    + cbn [csym]. rewrite Se. exact Sc.
 Qed.
